@@ -35,7 +35,113 @@ def generate(repo):
         shared = True
     else:
         raise Mismatch("%s: cannot classify the re-entrancy switches as module globals or threading.local attributes" % fn)
-    text = ("(* GENERATED from emit_event.py by tools/translators/gen_switches.py -- do not edit *)\n"
+    thunk_shared, store_all = saved_thunk_slot(repo, f2, fn)
+    text = ("(* GENERATED from emit_event.py and tracer.py by tools/translators/gen_switches.py -- do not edit *)\n"
             "(* true: the two switches are process-wide module globals; false: attributes of a threading.local instance *)\n"
-            "Definition switches_shared : bool := %s.\n" % ("true" if shared else "false"))
+            "Definition switches_shared : bool := %s.\n"
+            "(* the slot in which a before_stmt emission leaves the value for the exec-saved-thunk call:\n"
+            "   true: one per tracer for the whole process; false: one per tracer and thread (threading.local) *)\n"
+            "Definition thunk_shared : bool := %s.\n"
+            "(* true: the emission stores the value on every tracer of the stack; false: only on tracers that may see the thread *)\n"
+            "Definition thunk_store_all : bool := %s.\n" % tuple("true" if b else "false" for b in (shared, thunk_shared, store_all)))
     return {"Switches.v": text}
+
+
+def is_self_attr(n, attr=None):
+    return isinstance(n, ast.Attribute) and isinstance(n.value, ast.Name) and n.value.id == "self" and (attr is None or n.attr == attr)
+
+
+def is_ret_read(n):
+    """kwargs.get("ret")"""
+    return (isinstance(n, ast.Call) and isinstance(n.func, ast.Attribute) and n.func.attr == "get" and isinstance(n.func.value, ast.Name)
+            and n.func.value.id == "kwargs" and len(n.args) == 1 and isinstance(n.args[0], ast.Constant) and n.args[0].value == "ret" and not n.keywords)
+
+
+def saved_thunk_slot(repo, loop_fn, fn_emit):
+    mod, fn = parse(repo, "pyccolo/tracer.py")
+    cls = None
+    for n in mod.body:
+        if isinstance(n, ast.ClassDef) and n.name == "_InternalBaseTracer":
+            cls = n
+    need(cls is not None, mod, "class _InternalBaseTracer not found", fn)
+    init = find_func(cls.body, "__init__", fn)
+    direct, local_slots = [], set()
+    for a in ast.walk(init):
+        tgt, val = None, None
+        if isinstance(a, ast.Assign) and len(a.targets) == 1:
+            tgt, val = a.targets[0], a.value
+        elif isinstance(a, ast.AnnAssign):
+            tgt, val = a.target, a.value
+        if tgt is None or not is_self_attr(tgt):
+            continue
+        if tgt.attr == "_saved_thunk":
+            need(isinstance(val, ast.Constant) and val.value is None, a, "_saved_thunk must start as None", fn)
+            direct.append(a)
+        if (isinstance(val, ast.Call) and isinstance(val.func, ast.Attribute) and val.func.attr == "local" and isinstance(val.func.value, ast.Name)
+                and val.func.value.id == "threading" and not val.args and not val.keywords):
+            local_slots.add(tgt.attr)
+    props = [f for f in cls.body if isinstance(f, ast.FunctionDef) and f.name == "_saved_thunk"]
+    # every other store / read in the class must go through self._saved_thunk
+    for f in cls.body:
+        if isinstance(f, ast.FunctionDef) and f.name not in ("_saved_thunk", "__init__"):
+            for a in ast.walk(f):
+                if isinstance(a, ast.Attribute) and a.attr in local_slots and a.attr.startswith("_saved_thunk"):
+                    raise Mismatch("%s:%s: the saved-thunk slot is accessed outside its property" % (fn, a.lineno))
+    if direct and not props:
+        thunk_shared = True
+    elif props and not direct:
+        need(len(props) == 2, cls, "_saved_thunk must be a property with a getter and a setter", fn)
+        getter = [f for f in props if any(isinstance(d, ast.Name) and d.id == "property" for d in f.decorator_list)]
+        setter = [f for f in props if any(isinstance(d, ast.Attribute) and d.attr == "setter" and isinstance(d.value, ast.Name) and d.value.id == "_saved_thunk" for d in f.decorator_list)]
+        need(len(getter) == 1 and len(setter) == 1, cls, "_saved_thunk getter / setter not recognised", fn)
+        g, st = getter[0].body, setter[0].body
+        need(len(g) == 1 and isinstance(g[0], ast.Return) and isinstance(g[0].value, ast.Call) and isinstance(g[0].value.func, ast.Name) and g[0].value.func.id == "getattr"
+             and len(g[0].value.args) == 3 and is_self_attr(g[0].value.args[0]) and isinstance(g[0].value.args[1], ast.Constant)
+             and isinstance(g[0].value.args[2], ast.Constant) and g[0].value.args[2].value is None, getter[0], "getter must be `return getattr(self.<slot>, <name>, None)`", fn)
+        slot, field = g[0].value.args[0].attr, g[0].value.args[1].value
+        need(slot in local_slots, getter[0], "the slot %s is not a threading.local() created in __init__" % slot, fn)
+        param = setter[0].args.args[1].arg if len(setter[0].args.args) == 2 else None
+        need(len(st) == 1 and isinstance(st[0], ast.Assign) and len(st[0].targets) == 1 and isinstance(st[0].targets[0], ast.Attribute) and st[0].targets[0].attr == field
+             and is_self_attr(st[0].targets[0].value, slot) and isinstance(st[0].value, ast.Name) and st[0].value.id == param, setter[0],
+             "setter must be `self.%s.%s = <parameter>`" % (slot, field), fn)
+        thunk_shared = False
+    else:
+        raise Mismatch("%s: cannot classify the _saved_thunk slot (attribute set in __init__: %d, property functions: %d)" % (fn, len(direct), len(props)))
+    # exec_saved_thunk takes the value of the calling thread's slot and clears it
+    ex = find_func(cls.body, "exec_saved_thunk", fn)
+    need(len(ex.body) >= 2 and isinstance(ex.body[0], ast.Assert) and isinstance(ex.body[0].test, ast.Compare) and is_self_attr(ex.body[0].test.left, "_saved_thunk")
+         and isinstance(ex.body[0].test.ops[0], ast.IsNot), ex, "exec_saved_thunk must start with `assert self._saved_thunk is not None`", fn)
+    a1 = ex.body[1]
+    need(isinstance(a1, ast.Assign) and isinstance(a1.targets[0], ast.Tuple) and len(a1.targets[0].elts) == 2 and is_self_attr(a1.targets[0].elts[1], "_saved_thunk")
+         and isinstance(a1.value, ast.Tuple) and is_self_attr(a1.value.elts[0], "_saved_thunk") and isinstance(a1.value.elts[1], ast.Constant) and a1.value.elts[1].value is None,
+         a1, "exec_saved_thunk must take and clear the slot: `thunk, self._saved_thunk = self._saved_thunk, None`", fn)
+    # the final store of the emission loop
+    blocks = [s for s in loop_fn.body if isinstance(s, ast.If) and isinstance(s.test, ast.Compare) and isinstance(s.test.left, ast.Name) and s.test.left.id == "event"
+              and isinstance(s.test.comparators[0], ast.Constant) and s.test.comparators[0].value == "before_stmt"]
+    need(len(blocks) == 1 and not blocks[0].orelse, loop_fn, "one `if event == \"before_stmt\":` block expected at the end of _emit_tracer_loop", fn_emit)
+    need(blocks[0] is loop_fn.body[-1], blocks[0], "the before_stmt store must be the last statement of _emit_tracer_loop", fn_emit)
+    body = list(blocks[0].body)
+    alias = None
+    if len(body) == 2 and isinstance(body[0], ast.Assign) and isinstance(body[0].targets[0], ast.Name) and is_ret_read(body[0].value):
+        alias = body[0].targets[0].id
+        body = body[1:]
+    need(len(body) == 1 and isinstance(body[0], ast.For) and isinstance(body[0].iter, ast.Name) and body[0].iter.id == "_TRACER_STACK"
+         and isinstance(body[0].target, ast.Name) and not body[0].orelse and len(body[0].body) == 1, blocks[0], "`for tracer in _TRACER_STACK:` with one statement expected", fn_emit)
+    var = body[0].target.id
+    inner = body[0].body[0]
+
+    def is_store(a):
+        return (isinstance(a, ast.Assign) and len(a.targets) == 1 and isinstance(a.targets[0], ast.Attribute) and a.targets[0].attr == "_saved_thunk"
+                and isinstance(a.targets[0].value, ast.Name) and a.targets[0].value.id == var
+                and (is_ret_read(a.value) or (alias is not None and isinstance(a.value, ast.Name) and a.value.id == alias)))
+    if is_store(inner):
+        store_all = True
+    else:
+        t = inner.test if isinstance(inner, ast.If) else None
+        need(t is not None and not inner.orelse and len(inner.body) == 1 and is_store(inner.body[0]) and isinstance(t, ast.BoolOp) and isinstance(t.op, ast.Or) and len(t.values) == 2
+             and isinstance(t.values[0], ast.Compare) and isinstance(t.values[0].ops[0], ast.Eq) and isinstance(t.values[0].left, ast.Name) and t.values[0].left.id == "current_thread_id"
+             and isinstance(t.values[0].comparators[0], ast.Name) and t.values[0].comparators[0].id == "_main_thread_id"
+             and isinstance(t.values[1], ast.Attribute) and t.values[1].attr == "multiple_threads_allowed" and isinstance(t.values[1].value, ast.Name) and t.values[1].value.id == var,
+             inner, "the before_stmt store is neither unconditional nor guarded by `current_thread_id == _main_thread_id or tracer.multiple_threads_allowed`", fn_emit)
+        store_all = False
+    return thunk_shared, store_all
